@@ -61,6 +61,9 @@ func runC19(rc *RunCtx) {
 	rc.Cfg("sequential", sequential)
 
 	disk := NewDisk(s)
+	// second scheduling point per storage operation (effect vs. continuation) in a third of the runs
+	disk.PostGate = tp.Pick(3) == 2
+	rc.Cfg("post_gate", disk.PostGate)
 	disk.RecordOps = true
 	rec := NewRecorder(s)
 	h, err := BootCore(disk, CoreOpts{
